@@ -64,11 +64,17 @@ type hkdfReader struct {
 }
 
 func (r *hkdfReader) Read(p []byte) (int, error) {
-	if r.stream == nil {
-		r.stream = verif.UF("HKDF:"+r.id, 64, r.secret, r.salt, r.info)
-	}
-	if r.off+len(p) > len(r.stream) {
-		panic("models: HKDF output beyond 64 bytes is not modelled")
+	// output is modelled in 32-byte blocks, each an independent collision-free function of
+	// (secret, salt, info), so that equal 32-byte keys imply equal inputs
+	for r.off+len(p) > len(r.stream) {
+		if len(r.stream) >= 64 {
+			panic("models: HKDF output beyond 64 bytes is not modelled")
+		}
+		blk := "0"
+		if len(r.stream) == 32 {
+			blk = "1"
+		}
+		r.stream = append(r.stream, verif.UF("HKDF:"+r.id+":"+blk, 32, r.secret, r.salt, r.info)...)
 	}
 	n := copy(p, r.stream[r.off:])
 	r.off += n
